@@ -117,5 +117,20 @@ Proof.
   cbn [rbind rmap]. rewrite F. reflexivity.
 Qed.
 
+(* C12 on the translated constructor: the source of rabinkarp::Finder::new computes, for every needle,
+   the polynomial hash of the needle modulo 2^32 and the factor 2^(n-1) mod 2^32 used by the rolling update *)
+From Memchr Require Import Sub.RabinKarpProofs.
+
+Theorem code_rk_new_spec x :
+  exists f, rs_Finder_new x = Ok f /\ Hash_0 (Finder_hash f) = wrap (poly x) /\
+            Finder_hash_2pow f = wrap (2 ^ N.of_nat (length x - 1)).
+Proof.
+  pose proof (tie_rk_new x) as T. destruct (rs_Finder_new x) as [f|p]; [|discriminate]. cbn in T. injection T as T.
+  exists f. split; [reflexivity|].
+  pose proof (rk_new_hash x) as H1. pose proof (rk_new_2pow x) as H2. rewrite <- T in H1, H2. cbn in H1, H2.
+  rewrite hash_of_poly in H1. split; assumption.
+Qed.
+
 Print Assumptions tie_rk_new.
 Print Assumptions tie_rk_new_rev.
+Print Assumptions code_rk_new_spec.
